@@ -12,7 +12,7 @@ func init() {
 		ID: "C16", Level: "exploration", PanicClause: "C16.panic",
 		Cases: func(tier string) int {
 			if tier == "quick" {
-				return 1200
+				return 2400
 			}
 			return 150000
 		},
